@@ -41,6 +41,11 @@ K07 = [
     (sk("k06_froms_to_imports", "from pa import aa as {0}, bb\nfrom pkg.other import vv\nprint({0}, bb, vv, {1})\n"), ["froms_to_imports"]),
     (sk("k07_long_imports", "import pkg.other\nimport pkg.other as {0}\nprint(pkg.other.vv, {0}.vv, {1}.vv)\n"), ["handle_long_imports", "organize_imports"]),
     (sk("k08_import_in_function", "import pa as {0}\ndef fun():\n    import pb as {1}\n    return {1}.cc + {0}.aa\n{2} = 5\nprint(fun(), {2})\n"), ["organize_imports"]),
+    (sk("k09_relative_levels", "import app.core.runner\n", {
+        "app/__init__.py": "", "app/settings.py": "top = 1\n", "app/util.py": "{0} = 2\n",
+        "app/core/__init__.py": "", "app/core/helpers.py": "hh = 3\n", "app/core/util.py": "{1} = 4\n",
+        "app/core/runner.py": "from . import helpers\nfrom .. import settings\nfrom .util import {1} as {2}\nfrom ..util import {0} as {3}\nprint(helpers.hh, settings.top, {2}, {3})\n"}),
+     ["organize_imports@app/core/runner.py", "handle_long_imports@app/core/runner.py"]),
 ]
 
 
@@ -65,7 +70,9 @@ def make_run(p):
         return dict(api=api, path=path or "main.py", prefs=prefs)
 
     def run():
-        return bref.run_refactoring(s, build_op, PROPERTY, check_imports=True, post=idempotent)
+        from harness.c07_replay import tags_of
+
+        return bref.run_refactoring(s, build_op, PROPERTY, check_imports=True, post=idempotent, tagger=tags_of)
 
     return run
 
